@@ -505,16 +505,36 @@ func runC17(c *Check, w *World) {
 			}
 			for _, st := range sts {
 				vt := tb.Of(st.Val)
-				c.Decide(vt.String() == want, "R17.6", fn, "field:"+fld, fld+" ← hex bytes of argument "+fmt.Sprint(i+1)+" (a fresh slice per field)", fld+" is set from "+clip(vt.String(), 200)+", not from hex.DecodeString of argument "+fmt.Sprint(i+1), w.InstrPos(st))
+				viaHelper := false
+				if vt.String() != want {
+					// through a decoding helper: every value the helper can yield is nil or the decode of this argument
+					nv := tb.Norm(vt)
+					okAlts, has := true, false
+					for _, a := range nv.Alts() {
+						switch {
+						case a.IsConst() && a.Sym == "nil":
+						case a.String() == want:
+							has = true
+						default:
+							okAlts = false
+						}
+					}
+					if okAlts && has {
+						viaHelper = true
+					}
+				}
+				c.Decide(vt.String() == want || viaHelper, "R17.6", fn, "field:"+fld, fld+" ← hex bytes of argument "+fmt.Sprint(i+1)+" (a fresh slice per field)", fld+" is set from "+clip(vt.String(), 200)+", not from hex.DecodeString of argument "+fmt.Sprint(i+1), w.InstrPos(st))
 			}
 		}
-		n := 0
-		EachInstr(f, func(in ssa.Instruction) {
-			if cl, ok := in.(*ssa.Call); ok && CalleeName(cl.Common()) == "encoding/hex.DecodeString" {
-				n++
-				gateDominates(c, w, "R17.6", f, cl, "hex.DecodeString")
+		hitsD := tb.Reach(f, MatchCallee("encoding/hex.DecodeString"), 2)
+		n := len(hitsD)
+		gated := map[ssa.CallInstruction]bool{}
+		for _, h := range hitsD {
+			if !gated[h.Call] {
+				gated[h.Call] = true
+				gateDominates(c, w, "R17.6", h.Fn, h.Call, "hex.DecodeString")
 			}
-		})
+		}
 		c.Decide(n == 5, "R17.6", fn, "five-decodes", "each of the five arguments is decoded once", fmt.Sprintf("%d hex decodes, expected five", n), w.Pos(f.Pos()))
 	}
 	// siblings agree
@@ -540,7 +560,7 @@ func runC17(c *Check, w *World) {
 	c.Floor("R17.3", 4)
 	c.Floor("R17.4", 2)
 	c.Floor("R17.5", 2)
-	c.Floor("R17.6", 11)
+	c.Floor("R17.6", 7) // five fields, the decode gate(s) and the count; a shared decoding helper has one gate
 }
 
 func init() {
